@@ -78,7 +78,35 @@ type vec struct {
 	Amb  bool   `json:"amb"`
 }
 
+// budget: wall-clock limit of one parse.  Far beyond anything legitimate (the largest inputs, 10^6 octets or
+// 65536 generated records, take well under a second); a parse that exceeds it is run again, up to three times
+// in fresh goroutines, and only a hang that reproduces every time is reported.
 const budget = 20 * time.Second
+
+var writers []*hx.Writer
+var tmpDirs []string // temporary directories to remove if the process ends through hang()
+
+func newWriter(path string) *hx.Writer {
+	w := hx.NewWriter(path)
+	writers = append(writers, w)
+	return w
+}
+
+// hang: "reading records terminates" failed, reproducibly.  The goroutines stuck in the parser cannot be
+// killed (they keep a core busy each, and may keep allocating), so the finding is recorded, the summary is
+// printed and the harness process ends normally; the remaining cases of this process are skipped.
+func hang(sum *hx.Summary, fam, what string, cs interface{}) {
+	sum.Mis("zone/hostile:hang:"+fam, what+" did not return within "+budget.String()+", three times in a row (fresh goroutine each time)", cs)
+	sum.Note("aborted_after_hang", "the harness process stopped after the first reproducible hang: later cases were not run")
+	for _, w := range writers {
+		w.Close()
+	}
+	for _, d := range tmpDirs {
+		os.RemoveAll(d)
+	}
+	sum.Print()
+	os.Exit(0)
+}
 
 func main() {
 	if len(os.Args) < 3 {
@@ -161,12 +189,12 @@ func replay(path, spellPath, evPath string) {
 	var sum hx.Summary
 	sp := &speller{seen: map[string]bool{}}
 	if spellPath != "" {
-		sp.w = hx.NewWriter(spellPath)
+		sp.w = newWriter(spellPath)
 		defer sp.w.Close()
 	}
 	var evw *hx.Writer
 	if evPath != "" {
-		evw = hx.NewWriter(evPath)
+		evw = newWriter(evPath)
 		defer evw.Close()
 	}
 	nontrivial := 0
@@ -404,6 +432,10 @@ func errClass(o *zg.Observed, rf *zg.Spelling) string {
 			ln += n
 		}
 	}
+	if strings.Contains(o.ErrText, "dns: no blank after owner:") {
+		// never a property of our renderings (an owner is always followed by a blank): the lexer lost the blank
+		return kind + ":no-blank-after-owner"
+	}
 	if m := quotedTok.FindStringSubmatch(o.ErrText); m != nil {
 		if tok, err := strconv.Unquote(m[1]); err == nil && zg.IsMnemonic(tok) {
 			kind += ":mnemonic-token"
@@ -494,8 +526,7 @@ func replayZone(i int, v *vec, sum *hx.Summary, sp *speller) (nontrivial bool, n
 			"given": hx.FromBytes(rf.Text), "givenfs": fsTexts}
 		nspell++
 		if timedOut {
-			sum.Mis("zone/timeout", "parsing did not finish within the budget, three times", cs)
-			continue
+			hang(sum, "zone", "ZoneParser.Next", cs)
 		}
 		if o.Panic != "" {
 			sum.Mis("zone/panic", "panic: "+o.Panic, cs)
@@ -531,6 +562,7 @@ func osRun(i int, v *vec, sum *hx.Summary) {
 	if err != nil {
 		hx.Die("tmp: %v", err)
 	}
+	tmpDirs = []string{tmp}
 	defer os.RemoveAll(tmp)
 	st := &zg.Style{R: rand.New(rand.NewSource(seedFor("os", i))), Noise: false, AbsPrefix: tmp}
 	write := func(name string, data []byte) {
@@ -555,7 +587,7 @@ func osRun(i int, v *vec, sum *hx.Summary) {
 	cs := map[string]interface{}{"cfg": v.Cfg, "lines": v.Lines, "spelling": "os file system", "text": string(rf.Text)}
 	switch {
 	case timedOut:
-		sum.Mis("zone/timeout", "parsing did not finish within the budget, three times", cs)
+		hang(sum, "zone", "ZoneParser.Next (real file system)", cs)
 	case o.Panic != "":
 		sum.Mis("zone/panic", "panic: "+o.Panic, cs)
 	default:
@@ -571,12 +603,12 @@ func replayGen(i int, v *vec, sum *hx.Summary, sp *speller) bool {
 		st := &zg.Style{R: rand.New(rand.NewSource(seedFor("gen", i, k))), Noise: k == 1}
 		text := st.Render(g)
 		sp.line(text, g)
-		o, timedOut, _ := zg.RunBudget([]byte(text), runCfgOf(v.Cfg, nil), 3*budget)
+		o, timedOut, _ := zg.RunBudget([]byte(text), runCfgOf(v.Cfg, nil), budget)
 		cs := map[string]interface{}{"cfg": v.Cfg, "lines": v.Lines, "text": text}
 		rng := fmt.Sprintf("%d-%d/%d", g.Lo, g.Hi, g.Step)
 		switch {
 		case timedOut:
-			sum.Mis("zone/timeout", "$GENERATE "+rng+" did not finish within the budget, three times", cs)
+			hang(sum, "generate", "ZoneParser.Next on $GENERATE "+rng, cs)
 		case o.Panic != "":
 			sum.Mis("zone/panic", "panic: "+o.Panic, cs)
 		case o.NRecs > 65536:
@@ -638,7 +670,7 @@ func replayText(i int, v *vec, sum *hx.Summary, evw *hx.Writer) bool {
 func safety(fam string, n int, o *zg.Observed, timedOut bool, c zg.RunCfg, chain bool, sum *hx.Summary, cs interface{}) {
 	switch {
 	case timedOut:
-		sum.Mis("zone/hostile:timeout:"+fam, "parsing did not finish within the budget, three times in a row", cs)
+		hang(sum, fam, "ZoneParser.Next", cs)
 		return
 	case o.Panic != "":
 		k := "zone/hostile:panic"
@@ -683,8 +715,9 @@ func safety(fam string, n int, o *zg.Observed, timedOut bool, c zg.RunCfg, chain
 // ---------------------------------------------------------------- record (C06 trace validation)
 
 type evStart struct {
-	Ev  string `json:"ev"`
-	Cfg zg.Cfg `json:"cfg"`
+	Ev   string `json:"ev"`
+	Cfg  zg.Cfg `json:"cfg"`
+	Text string `json:"text,omitempty"` // the zone as written (for the reader of the trace; the spec does not look at it)
 }
 type evLine struct {
 	Ev   string    `json:"ev"`
@@ -694,7 +727,12 @@ type evLine struct {
 	Err  bool      `json:"err"`
 }
 
-var pool = []string{"a", "b", "c", "x", "y", "mail", "ns", "www", "w.w", "Up", "q1", "zz-9"}
+// labels: plain ones, and ones holding the octets whose text form is special (a dot as last / first / middle
+// octet, backslash, blank, ; ( " @ $, a non-printable, digits only).  An owner written ONLY with \; \( \) \" \\ and
+// escaped blanks is left to a dedicated case (the pinned lexer loses the blank after it when the line before ended
+// in a blank or a comment), hence the k in ;("k.
+var pool = []string{"a", "b", "c", "x", "y", "mail", "ns", "www", "w.w", "Up", "q1", "zz-9",
+	"a.", ".b", "e\\", "x y", ";(\"k", "@", "$d", "\x00z", "123", "7.", "\xe9"}
 
 type gen struct {
 	r     *rand.Rand
@@ -881,7 +919,7 @@ func (g *gen) lines(n, depth int, dir string) []zg.Line {
 
 func record(out string, n int) {
 	r := hx.Rand()
-	w := hx.NewWriter(out)
+	w := newWriter(out)
 	defer w.Close()
 	var sum hx.Summary
 	nrec := 0
@@ -911,14 +949,13 @@ func record(out string, n int) {
 		o, timedOut, _ := zg.RunBudget(rf.Text, rc, budget)
 		cs := map[string]interface{}{"cfg": cfg, "lines": rf.Lines, "text": string(rf.Text)}
 		if timedOut {
-			sum.Mis("zone/timeout", "parsing did not finish within the budget, three times", cs)
-			continue
+			hang(&sum, "zone", "ZoneParser.Next", cs)
 		}
 		if o.Panic != "" {
 			sum.Mis("zone/panic", "panic: "+o.Panic, cs)
 			continue
 		}
-		w.Emit(evStart{"start", cfg})
+		w.Emit(evStart{"start", cfg, string(rf.Text)})
 		// which rendered line was the parser reading when it returned record k / the error?
 		lineAt := func(off int) int {
 			for j, e := range rf.End {
